@@ -5,13 +5,3 @@ import Aldrin.Model.WF
 import Aldrin.Props.C01
 import Aldrin.Props.C07
 import Aldrin.Props.C13
-import Aldrin.Props.C08
-import Aldrin.Props.C14
-import Aldrin.Props.C02
-import Aldrin.Props.C03
-import Aldrin.Props.C04
-import Aldrin.Props.C05
-import Aldrin.Props.C09
-import Aldrin.Props.C10
-import Aldrin.Props.C11
-import Aldrin.Props.C12
